@@ -1,0 +1,24 @@
+//go:build verif
+
+// Machine-checked contracts for package variables (comment-only; read by
+// /verif/govc, never compiled into the program).
+
+package variables
+
+// ---- the Container interface
+//@ func Container.Merge
+//@   requires arg0 != nil
+//@   nomod
+//@   ensures result != nil
+//@ func Container.With
+//@   nomod
+//@   ensures result != nil
+//@ func Container.Map
+//@   nomod
+//@   ensures result != nil
+//@ func Container.Set
+//@   nomod
+//@ func Container.Get
+//@   nomod
+//@ func Container.Has
+//@   nomod
